@@ -280,6 +280,14 @@ CLI_PROGS = {
     'codegen': 'empty f() { }\n',
     'codegen2': 'int g = f();\nint f() { return 1; }\nempty @is_you() { write(g); }\n',
     'lint': 'empty @is_you() { return; write(1); }\n',
+    # diagnostics raised while function bodies are generated (the output file may already have been opened by then)
+    'codegen3': 'int n = 3;\nint[] arr = [n + n, 2];\nint m = arr.length;\nempty @is_you() {\n    writeln(m);\n}\n',
+    'codegen4': 'int big[40000];\nempty shown() { writeln(big.length); }\nempty @is_you() {\n    shown();\n}\n',
+    'codegen5': 'empty @is_you(string[] names) { }\n',
+    'codegen6': 'empty @is_you(bool flag) { }\n',
+    'codegen7': 'empty @is_you(int[] a, int[] b) { }\n',
+    'codegen8': 'int @is_you() { return 1; }\n',
+    'codegen9': 'empty @is_you() { }\nempty @is_you(int x) { }\n',
 }
 
 
@@ -296,6 +304,11 @@ def cli_grid(tier):
                             out.append((prog, m, s, unchecked, lint_, oflag))
     if tier == 'quick':
         out = out[::9]
+        # every program with sane options, so that each diagnostic class is reached (not masked by an option error)
+        for prog in CLI_PROGS:
+            for m, s_, oflag in ((16, 500, True), (24, 500, False), (64, 1, True)):
+                if (prog, m, s_, False, False, oflag) not in out:
+                    out.append((prog, m, s_, False, False, oflag))
     return out
 
 
@@ -428,7 +441,7 @@ def coverage(total, tier):
             'calls': '12 builtin-like names x 3 flavours x 6 argument lists in you-function, try body, defeat function and next to a user definition of the same name',
             'literals': 'integer literals of 1..39, 100, 1000, 4299..4301, 5000 digits in every base; \\u{..} with 1..20 digits; each of the 256 first code points raw '
                         'in a string, at top level and in a comment; empty/CRLF/BOM/no-newline files; word sizes {0,1,-1,2,3,8,16,64} x stack sizes {-500,-1,0,1,2,500,1e6,1e9,1e30}',
-            'cli': f'{len(cli_grid(tier))} invocations (successful ones must be byte-identical to the library pipeline): 9 programs (ok, lex/parse/type/codegen errors, lint) x -m {{-8,0,8,12,16,24,64}} x -s {{-1,0,1,500,1e9}} x '
+            'cli': f'{len(cli_grid(tier))} invocations (successful ones must be byte-identical to the library pipeline): 16 programs (ok, lex/parse/type errors, every class of codegen diagnostic, lint) x -m {{-8,0,8,12,16,24,64}} x -s {{-1,0,1,500,1e9}} x '
                    '--unchecked x --lint x -o given/omitted; 11 file-encoding cases',
         },
     }
